@@ -432,6 +432,18 @@ def check(col, prog, tier, profile, fixture=None):
                 neg = truth_of[e.res] if str(e.callee).endswith(("::lt", "::le")) else not truth_of[e.res]
         final_a, final_b = I.load(st.mem, fa), I.load(st.mem, fb)
         after_div = da[-1].state[1] if da else None
+        if not g and not da and not any(e.kind == "store" for e in evs):
+            # nothing done on this path: right when the denominator is known to be ONE (gcd(a, 1) = 1, and 1 > 0)
+            unit = False
+            for e in evs:
+                if e.kind == "call" and str(e.callee).endswith(("PartialEq::eq", "PartialEq::ne")) and e.res in truth_of:
+                    as_ = [x for x in e.res[2] if not (isinstance(x, tuple) and x and x[0] == "mem")]
+                    is_one = lambda x: x[0] == "ref" and x[1][0] == "constval" and x[1][1][0] == "assoc" and x[1][1][2] == "ONE"
+                    if len(as_) == 2 and ((as_[0] == ("ref", fb) and is_one(as_[1])) or (as_[1] == ("ref", fb) and is_one(as_[0]))):
+                        unit = unit or (truth_of[e.res] == str(e.callee).endswith("::eq"))
+            if unit:
+                col.ok("N4", norm.loc(), "%s|unit-denominator" % fk(norm), "b == 1: already in lowest terms with a positive denominator", nontrivial=False)
+                continue
         key = "%s|%s" % (fk(norm), "negative-branch" if neg else "non-negative-branch")
         if not okdiv:
             col.violation("N4", "%s|divide-both" % fk(norm), norm.loc(), "norm must divide both fields by the same g = gcd(a, b)")
